@@ -11,6 +11,8 @@ RULE = ('case = (write strategy, history of store / cache-query / drain operatio
         'sorted batches, query consistency, size == sum(len) at every lock-free scheduling point; non-trivial = execution with '
         '>=1 thread switch and >=1 duplicate timestamp or re-store after a drain; distinct = distinct interleavings (hash of '
         'the (thread, line) sequence) per history')
+RULE_MORE = (" Further families per strategy: the real writer loop with backend faults, instrumentation ticks on the reactor thread, histories of 150-300 operations, timesorted with a lag, MIN_TIMESTAMP_RESOLUTION set, and the daemon's start-up (write processor built as setupPipeline does, first datapoint against the writer's first pass).")
+RULE = RULE + RULE_MORE
 EXHAUSTIVE = {'quick': False, 'thorough': False}
 EXHAUSTIVE_OVER = 'all schedules with <=1 preemption of every generated history (and <=2 preemptions for histories marked short)'
 ASSUMPTIONS = ['two threads as in production (reactor thread and writer thread); preemption only between source lines of '
